@@ -8,6 +8,7 @@
   terminates (`C17_second_pass_terminates`).
 -/
 import Bebop.Proofs.Format
+import Bebop.Props.Canon
 
 namespace Bebop.Text
 
@@ -22,5 +23,18 @@ theorem C17_second_pass_terminates (inp : List Byte) :
   cases hf : format inp with
   | none => simp [hf] at h
   | some out => exact ⟨out, rfl, format_total out⟩
+
+/-- For every schema of the sub-language of Bebop/Props/Canon.lean and EVERY layout of its text, formatting the
+    formatter's output changes nothing, byte for byte. -/
+theorem C17_format_idempotent_partial (f : CFile) (hf : CFileOk f) (w : Nat → List Byte)
+    (hw : LayoutOk w (fileLex false f)) :
+    ∃ out, format (laidOutF w f) = some out ∧ format out = some out ∧
+      (format (laidOutF w f) >>= format) = format (laidOutF w f) := by
+  obtain ⟨out, h1, _, _, h4, h5⟩ := C16_C17_schema_layout_partial f hf w hw
+  exact ⟨out, h1, h4, h5⟩
+
+/-- The formatter's own layout is a fixpoint. -/
+theorem C17_canonical_text_is_fixpoint_partial (f : CFile) (hf : CFileOk f) :
+    format (canonTextF f) = some (canonTextF f) := C17_schema_canonical_partial f hf
 
 end Bebop.Text
